@@ -138,6 +138,14 @@ def _apply(logger, op):
     raise ValueError(op)
 
 
+def _validate_outcome(logger):
+    try:
+        logger.validate()
+        return "valid"
+    except Exception as e:
+        return type(e).__name__
+
+
 def _state(logger):
     return {
         "messages": [_canon_msg(m) for m in logger.messages],
@@ -146,7 +154,8 @@ def _state(logger):
             for s in logger.serializers
         ],
         "tracebacks": [m["task_level"][0] for m in logger.tracebackMessages],
-        "failed": len(logger._failed_validations),
+        # validation failures recorded at write time, observed through the public API
+        "failed": _validate_outcome(logger),
     }
 
 
@@ -177,7 +186,8 @@ def sequential_outcomes(harness):
     outs = []
     for order in _merges(harness):
         _output.Lock = thr.CoopLock
-        logger = MemoryLogger()
+        with thr.cooperative_primitives():
+            logger = MemoryLogger()
         rets = [[] for _ in harness]
         for ti, op in order:
             rets[ti].append(_apply(logger, op))
@@ -199,14 +209,16 @@ def run_mem(hi, bound, shard=(0, 1)):
         _output.Lock = thr.CoopLock
         box = {}
         if not by_thread:
-            box["logger"] = MemoryLogger()
+            with thr.cooperative_primitives():
+                box["logger"] = MemoryLogger()
         rets = [[] for _ in harness]
 
         def body(ti):
             def f():
                 if by_thread:
                     if ti == 0:
-                        box["logger"] = MemoryLogger()
+                        with thr.cooperative_primitives():
+                            box["logger"] = MemoryLogger()
                     else:
                         s.block_until(lambda: "logger" in box, ("wait-for-logger",))
                 for op in harness[ti]:
@@ -284,7 +296,8 @@ def run_file(hi, bound, shard=(0, 1)):
 
     def setup(s):
         f = RecFile()
-        dest = FileDestination(file=f)
+        with thr.cooperative_primitives():
+            dest = FileDestination(file=f)
         f.calls[:] = []
         if typed:
             world.fresh()
